@@ -4,8 +4,8 @@ import os
 
 import vcore
 
-DEVS_QUICK = ["merge_no_fix", "find_exclusive_max"]
-DEVS_ALL = ["merge_no_fix", "find_exclusive_max", "stream_abort", "stream_ignores_order"]
+DEVS_QUICK = ["merge_no_fix", "find_exclusive_max", "find_one_per_level"]
+DEVS_ALL = ["merge_no_fix", "find_exclusive_max", "find_one_per_level", "stream_abort", "stream_ignores_order"]
 
 
 def describe(sig, lines, rel, info):
@@ -50,6 +50,8 @@ def run(ctx, replay):
     thorough = ctx.tier == "thorough"
     # M: every sequence of builder operations for 2 files (4 keys around the 65536 boundary) and for 3 files
     # (3 keys): offsets + rank lookup, stream writer, heap merge in every input order, min/max file selection
+    # level by level under every placement of the files in levels 0..2 (deviation find_one_per_level: a scan that
+    # stops at the first covering file of a level above 0 loses files / values)
     ctx.model_check("MCTableFile", "MCTableFile_thorough.cfg" if thorough else "MCTableFile.cfg", timeout=1800)
     ctx.model_check("MCTableFile", "MCTableFile_3files_thorough.cfg" if thorough else "MCTableFile_3files.cfg", timeout=2400)
     for dev in (DEVS_ALL if thorough else DEVS_QUICK):
@@ -57,11 +59,14 @@ def run(ctx, replay):
 
     # T: the real builder / reader / merged iterator / version lookups
     nh, nv, nb, bigkeys = (500, 250, 4, 100000) if thorough else (60, 30, 1, 30000)
+    # level histories (each count = one edit-log history + one flush/compaction history): several files with
+    # overlapping / nested / identical key ranges in levels 1 and 2, every lookup repeated 32 times
+    nl = 20 if thorough else 4
     tr = os.path.join(ctx.scratch, "table.ndjson")
     scr = os.path.join(ctx.scratch, "scr-table")
     os.makedirs(scr, exist_ok=True)
     summ, rc, _ = ctx.run_vdrive(["table", "--seed", ctx.seed, "--histories", nh, "--versions", nv, "--big", nb,
-                                  "--bigkeys", bigkeys, "--out", tr, "--scratch", scr], timeout=1800)
+                                  "--levels", nl, "--bigkeys", bigkeys, "--out", tr, "--scratch", scr], timeout=1800)
     for u in summ["unresolved"]:
         raise vcore.Unresolved("table driver: %s" % u)
     for s in summ["samples"][:4]:
@@ -73,7 +78,8 @@ def run(ctx, replay):
     ctx.extra["big_table_keys"] = bigkeys
     if not kinds.get("Panic"):
         missing = [k for k in ("Create", "Offered", "Close", "Open", "Get", "Iterate", "Merged", "Flushed", "Found",
-                               "Loaded", "BigBuilt", "BigGet", "BigAbsent", "BigIterated") if not kinds.get(k)]
+                               "Loaded", "BigBuilt", "BigGet", "BigAbsent", "BigIterated", "Installed", "Listed",
+                               "Compacted") if not kinds.get(k)]
         if missing:
             raise vcore.Unresolved("vacuous run: no event of kind %s" % missing)
     vcore.validate_all(ctx, "TableFileTrace", "TableFileTrace.cfg", tr, describe=describe, dfs=False, timeout=1800)
@@ -91,7 +97,7 @@ def run(ctx, replay):
     # binding self-tests
     traces = vcore.split_traces(vcore.read_lines(tr))
     pick = [t for t in traces if '"mode":"tables"' in t[0]][:6] + [t for t in traces if '"mode":"version"' in t[0]][:4] \
-        + [t for t in traces if '"mode":"big"' in t[0]][:1]
+        + [t for t in traces if '"mode":"big"' in t[0]][:1] + [t for t in traces if '"mode":"levels"' in t[0]][:2]
     clean = os.path.join(ctx.scratch, "table-clean.ndjson")
     with open(clean, "w") as f:
         for t in pick:
@@ -106,6 +112,12 @@ def run(ctx, replay):
         ("the file selection misses a file",
          lambda d: d.get("ev") == "Found" and len(d["fs"]) > 0,
          lambda d: d["fs"].pop()),
+        ("a compaction leaves one of its inputs in the version",
+         lambda d: d.get("ev") == "Compacted" and len(d["ins"]) > 1,
+         lambda d: d["ins"].pop()),
+        ("a file is listed one level too high",
+         lambda d: d.get("ev") == "Listed" and len(d["files"]) > 0,
+         lambda d: d["files"][0].__setitem__(1, d["files"][0][1] + 1)),
     ]
     if thorough:
         tests += [
@@ -127,6 +139,15 @@ def run(ctx, replay):
             ("iteration of a table skips its first key",
              lambda d: d.get("ev") == "Iterate" and len(d["ks"]) > 1,
              lambda d: (d["ks"].pop(0), d["vs"].pop(0))),
+            ("a lookup after a compaction misses an atom of the merged value",
+             lambda d: d.get("ev") == "Loaded" and any(isinstance(v, list) and len(v) > 1 for v in d["vs"]),
+             lambda d: [v for v in d["vs"] if isinstance(v, list) and len(v) > 1][0].pop()),
+            ("a compaction output covers one key less than the merged inputs",
+             lambda d: d.get("ev") == "Compacted" and len(d["outs"]) > 0 and d["outs"][-1]["max"] != d["outs"][-1]["min"],
+             lambda d: d["outs"][-1].__setitem__("max", d["outs"][-1]["min"])),
+            ("an installed file is reported one level lower",
+             lambda d: d.get("ev") == "Installed" and d["lvl"] > 0,
+             lambda d: d.__setitem__("lvl", d["lvl"] - 1)),
         ]
     for what, pred, change in tests:
         vcore.corrupt_selftest(ctx, "TableFileTrace", "TableFileTrace.cfg", clean, _mutate(pred, change), what)
@@ -141,5 +162,9 @@ def run(ctx, replay):
         "readers are obtained through the exported reader cache (table.NewCache(..).GetReader), versions through a real kv store whose family never compacts during the run (threshold 1000); one flush = one file",
         "big tables (10^5 keys) are judged on sampled lookups and sampled iteration rows: each value carries its own position, so a value handed out for the wrong key or position is visible on every sample",
         "the stream writer is always used as Prepare, Write.., Commit; a stream that is written but never committed leaves its bytes in the previous key's value (model deviation stream_abort) -- the caller's duty, not driven on the real code",
+        "level histories: files are installed above level 0 through CommitFamilyEditLog of a real version set (tables written by the traced builder) "
+        "and by Family.Compact / the store's compaction check of a real family whose merger is the harness's union merger (values = ascending atom "
+        "lists, never empty); every lookup is repeated 32 times because the files of a level are visited in map order; the compaction threshold itself "
+        "(when a compaction starts) is not modelled, only what one run of the job does to the version",
         "the order in which a merged iterator hands out entries of EQUAL keys, and the order of values of one key across files of one level, is not fixed by the code (heap / map iteration): compared as multisets",
     ]
